@@ -58,8 +58,13 @@ class Kit:
         weights = [w for _, w in self.streams]
         for i in range(n):
             stream = rng.choices(names, weights)[0]
-            c = gen.gen_project(rng, stream=stream, facilities=self.facilities, fs_only=self.fs_only)
-            if stream not in ("pairs", "crossing", "conveyor", "autoabs", "gates") and rng.random() < self.feasible_frac:
+            if stream == "structured" and rng.random() < 0.05:
+                # beyond the usual 1-8 tasks: anything that switches behaviour at a size threshold
+                stream = "large"
+                c = gen.gen_project(rng, n_tasks=rng.choice([10, 12, 14, 16, 20, 24]), facilities=self.facilities, fs_only=self.fs_only)
+            else:
+                c = gen.gen_project(rng, stream=stream, facilities=self.facilities, fs_only=self.fs_only)
+            if stream not in ("pairs", "crossing", "conveyor", "autoabs", "gates") and rng.random() < (0.9 if stream == "large" else self.feasible_frac):
                 gen.simplify_feasible(rng, c)
             c["ops"] = self.make_ops(rng, c) if self.make_ops else [gen.gen_sim_op(rng, c, vary_init=True)]
             single = len(c["ops"]) == 1 and c["ops"][0].get("op") == "simulate"
